@@ -156,11 +156,69 @@ def search(seed=0, windows=40):
                            f"({r4.violations[:2]}): the watcher still judges against the old baseline (window {w}, seed {seed})")
     return n, None
 
+def search_memory():
+    """Witness finder for the ImmuneMemory contracts (recall / recall_by_hashes / prune_old / import_signatures): every memory of <= 2 stored
+    signatures over two agents, two hash values and three violation-type sets, capacities 1..3, against the clauses of contracts/C17 (bounded)."""
+    from datetime import timedelta
+    from operon_ai.surveillance.memory import ImmuneMemory, ThreatSignature
+    from operon_ai.surveillance.types import ThreatLevel, ResponseAction
+    t0 = datetime.utcnow()
+
+    def sig(a, vh, sh, vt, age_h=0):
+        return ThreatSignature(agent_id=a, vocabulary_hash=vh, structure_hash=sh, violation_types=vt, threat_level=list(ThreatLevel)[-1],
+                               effective_response=list(ResponseAction)[-1], created_at=t0 - timedelta(hours=age_h))
+    atoms = [(a, vh, sh, vt) for a in ("A", "B") for vh in ("h1", "h2") for sh in ("s1",) for vt in ((), ("x",), ("x", "y"))]
+    n = 0
+    for k in (0, 1, 2):
+        for stored in itertools.product(atoms, repeat=k):
+            for q in atoms:
+                for partial in (False, True):
+                    n += 1
+                    m = ImmuneMemory(capacity=3, signatures=[sig(*s) for s in stored])
+                    before = list(m.signatures)
+                    query = sig(*q)
+                    r = m.recall(query, partial=partial)
+                    if r is not None and not any(r is b for b in before):
+                        return n, f"recall returned a signature that is not stored: stored={stored} query={q} partial={partial}"
+                    if r is not None and r.agent_id != query.agent_id:
+                        return n, f"recall handed back another agent's signature: stored={stored} query={q} partial={partial} -> agent {r.agent_id!r}"
+                    if r is not None and not partial and (r.vocabulary_hash, r.structure_hash) != (query.vocabulary_hash, query.structure_hash):
+                        return n, f"exact recall with different hashes: stored={stored} query={q}"
+                    if r is not None and partial and not (set(r.violation_types) & set(query.violation_types)):
+                        return n, f"partial recall without a shared violation type: stored={stored} query={q}"
+                    if len(m.signatures) != len(before):
+                        return n, f"recall changed the number of stored signatures: stored={stored} query={q}"
+                m = ImmuneMemory(capacity=3, signatures=[sig(*s) for s in stored])
+                r = m.recall_by_hashes(q[0], q[1], q[2])
+                n += 1
+                if r is not None and (r.agent_id, r.vocabulary_hash, r.structure_hash) != q[:3]:
+                    return n, f"recall_by_hashes returned a non-matching signature: stored={stored} query={q[:3]}"
+            # pruning by age and importing at each capacity
+            for ages in itertools.product((0, 5), repeat=k):
+                n += 1
+                m = ImmuneMemory(capacity=3, signatures=[sig(*s, age_h=a) for s, a in zip(stored, ages)])
+                removed = m.prune_old(timedelta(hours=1))
+                if removed != k - len(m.signatures) or removed < 0 or removed != sum(1 for a in ages if a == 5):
+                    return n, f"prune_old({ages}) reported {removed}, {len(m.signatures)} of {k} left"
+            for cap in (1, 2, 3):
+                for extra in (0, 1, 2, 3):
+                    n += 1
+                    m = ImmuneMemory(capacity=cap, signatures=[sig(*s) for s in stored])
+                    data = [sig("A", "h1", "s1", ("x",)).to_dict() for _ in range(extra)]
+                    got = m.import_signatures(data)
+                    if got != len(m.signatures) - k or len(m.signatures) > max(k, cap):
+                        return n, (f"import_signatures: capacity {cap}, {k} stored, {extra} offered -> reported {got}, "
+                                   f"{len(m.signatures)} stored afterwards")
+    return n, None
+
 
 if __name__ == "__main__":
     seed = int(os.environ.get("VERIF_SEED", "0") or 0)
     n, bad = search(seed, 40 if "--thorough" not in sys.argv else 4000)
-    out = {"status": "ok" if bad is None else "violation", "bound": "24 fingerprints across every bound x op sequences depth<=4 (with a reference model of pending second signals); Treg table x rules; 40 random training windows incl. re-training on a changed window (seeded)",
+    if bad is None:
+        n2, bad = search_memory()
+        n += n2
+    out = {"status": "ok" if bad is None else "violation", "bound": "24 fingerprints across every bound x op sequences depth<=4 (with a reference model of pending second signals); Treg table x rules; 40 random training windows incl. re-training on a changed window (seeded); ImmuneMemory recall/prune/import on every memory of <= 2 signatures, capacities 1..3",
            "cases": n}
     if bad:
         out["detail"] = bad
